@@ -266,6 +266,17 @@ class Ctx:
     def note(self, s):
         self.notes.append(s)
 
+    def run_rules(self, rules):
+        """run each sub-rule; an analysis error in one does not hide violations found by the others"""
+        errs = []
+        for r in rules:
+            try:
+                r(self)
+            except AnalysisError as e:
+                errs.append('%s: %s' % (getattr(r, '__name__', 'rule'), e))
+        if errs:
+            raise AnalysisError(' || '.join(errs))
+
 
 # ---------------------------------------------------------------- known findings
 
